@@ -1,0 +1,55 @@
+//go:build verif
+
+// Contracts for package hash, checked by /verif/govc (comment-only; not part of any normal build).
+
+package hash
+
+// ---- C08: XOR algebra of hashes (bytes are 8-bit vectors, exact) ----
+
+// xorAll(others, n, k) = others[0][k] ^ ... ^ others[n-1][k]  (specification function; its two
+// defining equations are stated as axioms in the block of Xor)
+//@ ghost func xorAll(others []SHA256Hash, n int, k int) uint8
+
+//@ func (SHA256Hash).Xor
+//@   prop C08 C19
+//@   safety
+//@   modifies nothing
+//@   axiom forall k int :: xorAll(others, 0, k) == 0
+//@   axiom forall n, k int :: 0 <= n && n < len(others) && 0 <= k && k < 32 ==> xorAll(others, n+1, k) == xorAll(others, n, k) ^ others[n][k]
+//@   loop 1 invariant forall k int :: 0 <= k && k < 32 ==> h[k] == old(h)[k] ^ xorAll(others, $i, k)
+//@   loop 2 invariant 0 <= n && n < len(others)
+//@   loop 2 invariant forall k int :: 0 <= k && k < $i ==> h[k] == old(h)[k] ^ xorAll(others, n+1, k)
+//@   loop 2 invariant forall k int :: $i <= k && k < 32 ==> h[k] == old(h)[k] ^ xorAll(others, n, k)
+//@   ensures [xor-of-all] forall k int :: 0 <= k && k < 32 ==> result[k] == h[k] ^ xorAll(others, len(others), k)
+//@   ensures [xor-of-one] len(others) == 1 ==> forall k int :: 0 <= k && k < 32 ==> result[k] == h[k] ^ others[0][k]
+
+//@ func EmptyHash
+//@   prop C08
+//@   modifies nothing
+//@   ensures [all-zero] forall k int :: 0 <= k && k < 32 ==> result[k] == 0
+
+//@ func (SHA256Hash).Clone
+//@   prop C08 C19
+//@   safety
+//@   modifies nothing
+//@   ensures [copy] forall k int :: 0 <= k && k < 32 ==> result[k] == h[k]
+
+//@ func (SHA256Hash).Empty
+//@   prop C08 C19
+//@   safety
+//@   modifies nothing
+//@   loop 1 invariant forall k int :: 0 <= k && k < $i ==> h[k] == 0
+//@   ensures [all-zero] result <==> forall k int :: 0 <= k && k < 32 ==> h[k] == 0
+
+//@ func FromSlice
+//@   prop C08 C19
+//@   safety
+//@   modifies nothing
+//@   ensures [prefix-copied] forall k int :: 0 <= k && k < 32 && k < len(slice) ==> result[k] == slice[k]
+//@   ensures [rest-zero] forall k int :: 0 <= k && k < 32 && k >= len(slice) ==> result[k] == 0
+
+//@ func (SHA256Hash).Slice
+//@   prop C08 C19
+//@   safety
+//@   modifies nothing
+//@   ensures [view-of-a-copy] len(result) == 32 && isFresh(result) && forall k int :: 0 <= k && k < 32 ==> result[k] == h[k]
